@@ -511,6 +511,30 @@ def run(ctx) -> None:
     parent_eq = [x for x in walk_local(ext.node) if isinstance(x, ast.Compare) and len(x.ops) == 1 and isinstance(x.ops[0], ast.Eq) and any("parent" in src(y) for y in [x.left, x.comparators[0]]) and any(isinstance(y, ast.Call) and isinstance(y.func, ast.Attribute) and y.func.attr == "get" for y in [x.left, x.comparators[0]])]
     oke = bool(itervars) and bool(negated) and not parent_eq
     rep.add("C20.R8", f"{ext.qname}:outside-by-parent-chain", oke, ext.loc(), "a consumer anywhere in the flat graph counts unless is_descendant_of places it inside the container" if oke else ("external consumers are selected by comparing a node's parent with one scope: only siblings of the container count, a consumer further out is missed and the value loses its DATA node while edges are still routed through it" if parent_eq else "external consumers are not decided by 'not is_descendant_of(<node>, <container>)' over all nodes of the flat graph"))
+    # a drawn edge is skipped as a duplicate only when the very same edge (same two endpoints) was drawn before: the
+    # de-duplication key names the endpoints that are handed to the edge formatter (a coarser key — the producer instead
+    # of the value's DATA node — drops every further value between the same two nodes)
+    n_keys = 0
+    for f in db.funcs_in("viz.mermaid"):
+        keys = [x for x in walk_local(f.node) if isinstance(x, ast.Assign) and isinstance(x.value, ast.Tuple) and len(x.targets) == 1 and isinstance(x.targets[0], ast.Name) and any(isinstance(c_, ast.Compare) and isinstance(c_.ops[0], (ast.In, ast.NotIn)) and isinstance(c_.left, ast.Name) and c_.left.id == x.targets[0].id for c_ in walk_local(f.node))]
+        fmts = [c for c in walk_local(f.node) if isinstance(c, ast.Call) and (dotted(c.func) or "").startswith("_format_") and len(c.args) >= 2]
+        for k in keys:
+            later = sorted([c for c in fmts if c.lineno >= k.lineno], key=lambda c: c.lineno)
+            nxt = [k2 for k2 in keys if k2.lineno > k.lineno]
+            call = next((c for c in later if not nxt or c.lineno <= min(k2.lineno for k2 in nxt)), None)
+            if call is None:
+                continue
+            n_keys += 1
+
+            def strip_(e):
+                return src(e.args[0]) if isinstance(e, ast.Call) and (dotted(e.func) or "") == "_sanitize_id" and e.args else src(e)
+
+            ends = [strip_(e) for e in k.value.elts[:2]]
+            drawn = [src(a) for a in call.args[:2]]
+            okk = ends == drawn
+            rep.add("C20.R1", f"{f.qname}:dedup-key-names-the-drawn-edge@{_ri(f, k) if False else n_keys}", okk, f"{f.module.rel}:{k.lineno}", "the duplicate test is keyed by the endpoints of the edge that is drawn" if okk else f"edges are de-duplicated by ({', '.join(ends)}) but drawn between ({', '.join(drawn)}): once one value between two nodes is drawn every further value between them counts as a duplicate — its DATA node is declared and fed but has no edge to the consumer")
+    if n_keys < 6:
+        raise AnalysisError(f"only {n_keys} de-duplication keys found in the Mermaid renderer")
     # a visible consumer is dropped from the consumer map only in favour of one of its own descendants (the container is
     # represented by what is visible inside it) — never because some unrelated consumer happens to sit deeper
     pcm = db.func("viz._common.build_param_to_consumer_map")
